@@ -249,6 +249,11 @@ func check(id, tier string) int {
 	os.MkdirAll(tmp, 0o755)
 	defer os.RemoveAll(tmp)
 	os.MkdirAll(filepath.Join(root, "replays"), 0o755)
+	if old, _ := filepath.Glob(filepath.Join(root, "replays", id+"-*")); len(old) > 0 {
+		for _, f := range old {
+			os.Remove(f)
+		}
+	}
 
 	watchdog := "900"
 	if tier == "thorough" {
